@@ -764,7 +764,7 @@ def agent_poll(prog, chk, rule="agent-poll-table"):
         r = Run(prog, key, pre_hooks={REQ + "::poll": pre}, hooks={REQ + "::poll": post}, setup=setup)
         if r.error or not r.results:
             chk.fail(rule, "analysis|" + mode, detail=r.error or "no return state")
-            return
+            continue          # the rows of the modes that did finish are still evaluated (a budget overrun must not hide a finding)
         results += [(r, mode, st, ret) for st, ret in r.results]
     n = skipped = n_min = 0
     outcomes = set()
